@@ -743,3 +743,14 @@ example :
     let x : Nat → Rat := fun i => if i = 0 then 1 else -1
     ∑ i ∈ Finset.range 2, ∑ j ∈ Finset.range 2, (∑ l ∈ Finset.range 2, P i l) * qMatG (0 : Rat) 2 P i j * (x i * x j) = 1 / 15 := by
   decide +kernel
+
+/-- **TAS, the border rule is `fix_offset(ExtendReflect)`.** The model of `_ctas` folds a window position one step outside
+an axis of length `n ≥ 1` with `reflect1` (`−1 ↦ 0`, `n ↦ n−1`); for every index the 3-wide window can produce
+(`−1 ≤ i ≤ n`) this is exactly what the shared transliteration of `_filters.cpp: fix_offset` returns for the mode
+`reflect` that `convolve` uses by default (`Model/Border.lean: fixOffset`, the border model of C01–C03). -/
+theorem C19_tas_border_is_reflect (n : Nat) (hn : 1 ≤ n) (i : Int) (h0 : -1 ≤ i) (h1 : i ≤ n) :
+    fixOffset .reflect i n = some (C19Tas.reflect1 n i) :=
+  C19Tas.reflect1_eq_fixOffset n hn i h0 h1
+
+example : C19Tas.reflect1 5 (-1) = 0 ∧ C19Tas.reflect1 5 5 = 4 ∧ C19Tas.reflect1 5 3 = 3 ∧ C19Tas.reflect1 1 1 = 0 ∧
+    fixOffset .reflect 5 5 = some 4 := by decide
